@@ -28,7 +28,9 @@ theorem DataFmt.isEscape {f : Format} (hf : DataFmt f) (c : UInt8) : f.isEscape 
   by_cases h0 : c = 0
   · subst h0; decide
   · have : (c != 0) = true := by simp [h0]
-    simp [this, h0]
+    simp only [this, List.contains_cons, List.contains_nil, Bool.or_false, Bool.true_and]
+    have h3 : (c == 0) = false := by simp [h0]
+    rw [h3, Bool.or_false]
 
 theorem DataFmt.isComment {f : Format} (hf : DataFmt f) (c : UInt8) : f.isComment c = (c == 35) :=
   HashOnly.isComment hf.com c
@@ -269,5 +271,393 @@ theorem validAfter_vis (len v : Nat) (w : List UInt8) (c : UInt8) (hc : isspace 
     validAfter len v (w ++ [c]) = len + w.length + 1 := by
   rw [validAfter_append]
   simp [validAfter, hc]
+
+
+/-! ### quoted values -/
+
+/-- state inside double quotes after the value prefix `acc` -/
+def qstate (e : List (List UInt8)) (fi : UInt8) (cur ln : Nat) (acc : List UInt8) (la : Option UInt8) : DataSt :=
+  if acc.isEmpty then Dst e [34] false fi 0 cur ln 34 (some 34)
+  else Dst e acc true fi acc.length cur ln 34 la
+
+section quoted
+variable {f : Format} (hf : DataFmt f)
+include hf
+
+theorem qstate_step (e : List (List UInt8)) (fi : UInt8) (cur ln : Nat) (acc : List UInt8) (la : Option UInt8)
+    (c : UInt8) (h0 : c ≠ 0) (h34 : c ≠ 34) :
+    ∃ ln', dataStep f (qstate e fi cur ln acc la) c = .more (qstate e fi cur ln' (acc ++ [c]) (some c)) := by
+  unfold qstate
+  by_cases ha : acc = []
+  · subst ha
+    refine ⟨if c == 10 then ln + 1 else ln, ?_⟩
+    simp only [List.isEmpty_nil, ↓reduceIte, List.nil_append, List.isEmpty_cons, Bool.false_eq_true,
+      List.length_cons, List.length_nil, Nat.zero_add]
+    exact dataStep_in_first hf e fi cur ln (some 34) c h0 h34
+  · refine ⟨if c == 10 then ln + 1 else ln, ?_⟩
+    have h1 : acc.isEmpty = false := by simp [ha]
+    have h2 : (acc ++ [c]).isEmpty = false := by simp
+    simp only [h1, h2, Bool.false_eq_true, ↓reduceIte, List.length_append, List.length_cons, List.length_nil,
+      Nat.zero_add]
+    exact dataStep_in_keep hf e acc fi acc.length cur ln la c h0 h34
+
+theorem qstate_escaped (e : List (List UInt8)) (fi : UInt8) (cur ln : Nat) (acc : List UInt8) (la : Option UInt8) :
+    runSteps (dataStep f) (qstate e fi cur ln acc la) [92, 34] = some (qstate e fi cur ln (acc ++ [34]) (some 34)) := by
+  obtain ⟨ln', h1⟩ := qstate_step hf e fi cur ln acc la 92 (by decide) (by decide)
+  have hln : ln' = ln := by
+    -- the line counter only moves on a line feed
+    unfold qstate at h1
+    by_cases ha : acc = []
+    · subst ha
+      simp only [List.isEmpty_nil, ↓reduceIte, List.nil_append, List.isEmpty_cons, Bool.false_eq_true] at h1
+      rw [dataStep_in_first hf e fi cur ln (some 34) 92 (by decide) (by decide)] at h1
+      simp only [Step.more.injEq] at h1
+      have := congrArg (fun d => d.st.line) h1
+      simpa using this.symm
+    · have h1' : acc.isEmpty = false := by simp [ha]
+      have h2 : (acc ++ [92]).isEmpty = false := by simp
+      simp only [h1', h2, Bool.false_eq_true, ↓reduceIte] at h1
+      rw [dataStep_in_keep hf e acc fi acc.length cur ln la 92 (by decide) (by decide)] at h1
+      simp only [Step.more.injEq] at h1
+      have := congrArg (fun d => d.st.line) h1
+      simpa using this.symm
+  subst hln
+  simp only [runSteps, h1]
+  have h2 : (acc ++ [92]).isEmpty = false := by simp
+  have h3 : (acc ++ [34]).isEmpty = false := by simp
+  unfold qstate
+  simp only [h2, h3, Bool.false_eq_true, ↓reduceIte, List.length_append, List.length_cons, List.length_nil,
+    Nat.zero_add]
+  rw [dataStep_in_escaped hf e acc fi (acc.length + 1) cur ln']
+
+/-- the escaped text of `v` inside quotes yields `v` -/
+theorem run_escape (e : List (List UInt8)) (fi : UInt8) (cur : Nat) :
+    ∀ (v acc : List UInt8) (la : Option UInt8) (ln : Nat), v.contains 0 = false →
+      ∃ ln' la', runSteps (dataStep f) (qstate e fi cur ln acc la) (escape v)
+          = some (qstate e fi cur ln' (acc ++ v) la')
+        ∧ (v ≠ [] → la' = v.getLast?) ∧ (v = [] → la' = la) := by
+  intro v
+  induction v with
+  | nil => intro acc la ln _; exact ⟨ln, la, by simp [escape, runSteps], fun h => absurd rfl h, fun _ => rfl⟩
+  | cons c r ih =>
+    intro acc la ln hz
+    simp only [List.contains_cons, Bool.or_eq_false_iff] at hz
+    have h0 : c ≠ 0 := by
+      intro h; subst h; simp at hz
+    by_cases h34 : c = 34
+    · subst h34
+      obtain ⟨ln', la', hrun, hl1, hl2⟩ := ih (acc ++ [34]) (some 34) ln hz.2
+      refine ⟨ln', la', ?_, ?_, fun h => by cases h⟩
+      · have : escape (34 :: r) = [92, 34] ++ escape r := by simp [escape]
+        rw [this]
+        have := runSteps_append (dataStep f) _ _ _ [92, 34] (escape r)
+          (qstate_escaped hf e fi cur ln acc la) hrun
+        simpa using this
+      · intro _
+        by_cases hr : r = []
+        · subst hr; rw [hl2 rfl]; rfl
+        · rw [hl1 hr]; cases r with
+          | nil => exact absurd rfl hr
+          | cons a t => simp [List.getLast?_cons_cons]
+    · obtain ⟨ln1, hstep⟩ := qstate_step hf e fi cur ln acc la c h0 h34
+      obtain ⟨ln', la', hrun, hl1, hl2⟩ := ih (acc ++ [c]) (some c) ln1 hz.2
+      refine ⟨ln', la', ?_, ?_, fun h => by cases h⟩
+      · have : escape (c :: r) = c :: escape r := by
+          have : (c == 34) = false := by simp [h34]
+          simp [escape, this]
+        rw [this]
+        simp only [runSteps, hstep]
+        simpa using hrun
+      · intro _
+        by_cases hr : r = []
+        · subst hr; rw [hl2 rfl]; rfl
+        · rw [hl1 hr]; cases r with
+          | nil => exact absurd rfl hr
+          | cons a t => simp [List.getLast?_cons_cons]
+
+end quoted
+
+/-! ### the whole value text -/
+
+/-- the data state behind a value `val`: its bytes are the valid part of the pending area -/
+def AfterVal (e : List (List UInt8)) (fi : UInt8) (cur : Nat) (val : List UInt8) (d : DataSt) : Prop :=
+  ∃ l k ln la, d = Dst e l k fi val.length cur ln 0 la
+    ∧ ((k = true ∧ val.length ≤ l.length) ∨ (k = false ∧ val = [] ∧ l.length ≤ 1))
+    ∧ l.take val.length = val
+
+section whole
+variable {f : Format} (hf : DataFmt f)
+include hf
+
+theorem afterVal_blank (e : List (List UInt8)) (fi : UInt8) (cur : Nat) (val : List UInt8) (d : DataSt)
+    (h : AfterVal e fi cur val d) (b : UInt8) (hb : isBlank b = true) :
+    ∃ d', dataStep f d b = .more d' ∧ AfterVal e fi cur val d' ∧ d'.last = some b := by
+  obtain ⟨l, k, ln, la, hd, hk, ht⟩ := h
+  subst hd
+  have hb' : b = 32 ∨ b = 9 := by simpa [isBlank] using hb
+  have hsp : isspace b = true := by rcases hb' with h | h <;> subst h <;> decide
+  have hpl : plainChar b = true := by rcases hb' with h | h <;> subst h <;> decide
+  rcases hk with ⟨hk, hv⟩ | ⟨hk, hv, hl⟩
+  · subst hk
+    refine ⟨_, dataStep_plain_keep hf e l fi val.length cur ln la b hpl, ?_, rfl⟩
+    simp only [hsp, ↓reduceIte]
+    exact ⟨l ++ [b], true, ln, some b, rfl, Or.inl ⟨rfl, by simp; omega⟩, by rw [List.take_append_of_le_length hv]; exact ht⟩
+  · subst hk hv
+    refine ⟨_, dataStep_blank_lead hf e l fi cur ln la b hb hl, ?_, rfl⟩
+    exact ⟨[b], false, ln, some b, rfl, Or.inr ⟨rfl, rfl, by simp⟩, by simp⟩
+
+theorem afterVal_blanks (e : List (List UInt8)) (fi : UInt8) (cur : Nat) (val : List UInt8) :
+    ∀ (bs : List UInt8) (d : DataSt), AfterVal e fi cur val d → bs.all isBlank = true →
+      ∃ d', runSteps (dataStep f) d bs = some d' ∧ AfterVal e fi cur val d'
+        ∧ (bs ≠ [] → ∃ b, d'.last = some b ∧ isspace b = true) := by
+  intro bs
+  induction bs with
+  | nil => intro d h _; exact ⟨d, rfl, h, fun hh => absurd rfl hh⟩
+  | cons b r ih =>
+    intro d h hb
+    simp only [List.all_cons, Bool.and_eq_true] at hb
+    obtain ⟨d1, hs, ha, hl⟩ := afterVal_blank hf e fi cur val d h b hb.1
+    obtain ⟨d', hrun, ha', hl'⟩ := ih d1 ha hb.2
+    refine ⟨d', by simp only [runSteps, hs]; exact hrun, ha', ?_⟩
+    intro _
+    by_cases hr : r = []
+    · subst hr
+      simp only [runSteps, Option.some.injEq] at hrun
+      subst hrun
+      have hb' : b = 32 ∨ b = 9 := by simpa [isBlank] using hb.1
+      exact ⟨b, hl, by rcases hb' with h | h <;> subst h <;> decide⟩
+    · exact hl' hr
+
+/-- exit of the data loop behind a value -/
+def DataExit.good (e : List (List UInt8)) (fi : UInt8) (cur : Nat) (val : List UInt8) (s : St) : Prop :=
+  ∃ l k ln, s = Stt e l k fi val.length cur ln ∧ l.take val.length = val
+
+theorem afterVal_newline (e : List (List UInt8)) (fi : UInt8) (cur : Nat) (val : List UInt8) (d : DataSt)
+    (h : AfterVal e fi cur val d) :
+    ∃ s, dataStep f d 10 = .done (.newline s) ∧ DataExit.good e fi cur val s := by
+  obtain ⟨l, k, ln, la, hd, hk, ht⟩ := h
+  subst hd
+  have hv : (k = true ∧ val.length ≤ l.length) ∨ val.length = 0 := by
+    rcases hk with h | ⟨_, h, _⟩
+    · exact Or.inl h
+    · exact Or.inr (by rw [h]; rfl)
+  obtain ⟨l', k', hs, ht'⟩ := dataStep_newline hf e l k fi val.length cur ln la hv
+  exact ⟨_, hs, l', k', ln + 1, rfl, by rw [ht', ht]⟩
+
+theorem afterVal_comment (e : List (List UInt8)) (fi : UInt8) (cur : Nat) (val : List UInt8) (d : DataSt)
+    (h : AfterVal e fi cur val d) (b : UInt8) (hb : isspace b = true) (hl : d.last = some b) :
+    ∃ s, dataStep f d 35 = .done (.comment s) ∧ DataExit.good e fi cur val s := by
+  obtain ⟨l, k, ln, la, hd, hk, ht⟩ := h
+  subst hd
+  simp only at hl
+  subst hl
+  have hv : (k = true ∧ val.length ≤ l.length) ∨ val.length = 0 := by
+    rcases hk with h | ⟨_, h, _⟩
+    · exact Or.inl h
+    · exact Or.inr (by rw [h]; rfl)
+  obtain ⟨l', k', hs, ht'⟩ := dataStep_comment hf e l k fi val.length cur ln b hb hv
+  exact ⟨_, hs, l', k', ln, rfl, by rw [ht', ht]⟩
+
+end whole
+
+
+/-! ### assembling: value text, trailing decoration, line feed -/
+
+theorem isSpace_eq (c : UInt8) : Render.isSpace c = isspace c := rfl
+
+/-- the text written for an optional value -/
+def valueText (ov : Option (List UInt8)) : List UInt8 :=
+  match ov with
+  | some x => if x.isEmpty then [] else writeValue x
+  | none => []
+
+/-- the value that is read back -/
+def valueOf (ov : Option (List UInt8)) : List UInt8 :=
+  match ov with
+  | some x => x
+  | none => []
+
+/-- trailing decoration: blanks, optionally (after at least one blank) a comment without line feed -/
+theorem trail_split (tr : List UInt8) (h : trailOk tr = true) :
+    ∃ bs, bs.all isBlank = true ∧ (tr = bs ∨ ∃ txt, tr = bs ++ 35 :: txt ∧ bs ≠ [] ∧ txt.contains 10 = false) := by
+  have hct : ∀ l : List UInt8, commentTail l = true →
+      ∃ bs, bs.all isBlank = true ∧ (l = bs ∨ ∃ txt, l = bs ++ 35 :: txt ∧ txt.contains 10 = false) := by
+    intro l
+    induction l with
+    | nil => intro _; exact ⟨[], rfl, Or.inl rfl⟩
+    | cons c r ih =>
+      intro hc
+      simp only [commentTail] at hc
+      split at hc
+      · rename_i h35
+        have : c = 35 := by simpa using h35
+        subst this
+        exact ⟨[], rfl, Or.inr ⟨r, rfl, by simpa using hc⟩⟩
+      · simp only [Bool.and_eq_true] at hc
+        obtain ⟨bs, hb, hr⟩ := ih hc.2
+        refine ⟨c :: bs, by simp [hc.1, hb], ?_⟩
+        rcases hr with hr | ⟨txt, hr, ht⟩
+        · exact Or.inl (by rw [hr])
+        · exact Or.inr ⟨txt, by rw [hr]; rfl, ht⟩
+  unfold trailOk at h
+  simp only [Bool.or_eq_true] at h
+  rcases h with h | h
+  · exact ⟨tr, h, Or.inl rfl⟩
+  · cases tr with
+    | nil => exact ⟨[], rfl, Or.inl rfl⟩
+    | cons c r =>
+      simp only [Bool.and_eq_true] at h
+      obtain ⟨bs, hb, hr⟩ := hct (c :: r) h.2
+      refine ⟨bs, hb, ?_⟩
+      rcases hr with hr | ⟨txt, hr, ht⟩
+      · exact Or.inl hr
+      · refine Or.inr ⟨txt, hr, ?_, ht⟩
+        intro hbs
+        subst hbs
+        simp only [List.nil_append, List.cons.injEq] at hr
+        have := h.1
+        rw [hr.1] at this
+        revert this; decide
+
+section assemble
+variable {f : Format} (hf : DataFmt f)
+include hf
+
+/-- blanks and the written value lead to the state "behind the value" -/
+theorem run_value (e : List (List UInt8)) (fi : UInt8) (cur ln : Nat) (post : List UInt8) (ov : Option (List UInt8))
+    (hpost : post.all isBlank = true)
+    (hv : match ov with | some x => x.isEmpty = true ∨ valueOk x = true | none => True) :
+    ∃ d, runSteps (dataStep f) (Dst e [] false fi 0 cur ln 0 none) (post ++ valueText ov) = some d
+      ∧ AfterVal e fi cur (valueOf ov) d := by
+  obtain ⟨x, la, hrun1, hx, _⟩ := run_lead_blanks hf e fi cur ln post [] none hpost (by simp)
+  -- no text: the state behind the blanks
+  have hnone : AfterVal e fi cur [] (Dst e x false fi 0 cur ln 0 la) :=
+    ⟨x, false, ln, la, rfl, Or.inr ⟨rfl, rfl, hx⟩, by simp⟩
+  cases ov with
+  | none => exact ⟨_, by simpa [valueText] using hrun1, by simpa [valueOf] using hnone⟩
+  | some v =>
+    by_cases hve : v.isEmpty = true
+    · have : v = [] := by simpa using hve
+      subst this
+      exact ⟨_, by simpa [valueText] using hrun1, by simpa [valueOf] using hnone⟩
+    · have hvo : valueOk v = true := by
+        rcases hv with h | h
+        · exact absurd h hve
+        · exact h
+      have hne : v ≠ [] := by simpa using hve
+      simp only [valueText, hve, Bool.false_eq_true, ↓reduceIte, valueOf]
+      unfold writeValue
+      by_cases hp : plainOk v = true
+      · -- plain
+        simp only [hp, ↓reduceIte]
+        unfold plainOk at hp
+        simp only [Bool.and_eq_true] at hp
+        obtain ⟨⟨_, hall⟩, hends⟩ := hp
+        cases v with
+        | nil => exact absurd rfl hne
+        | cons c0 v' =>
+          have hallp : (c0 :: v').all plainChar = true := by
+            rw [List.all_eq_true] at hall ⊢
+            intro c hc
+            have := hall c hc
+            simpa [plainChar] using this
+          simp only [List.all_cons, Bool.and_eq_true] at hallp
+          have hsp0 : isspace c0 = false := by
+            simp only [List.head?_cons] at hends
+            split at hends
+            · rename_i a b h1 h2
+              simp only [Option.some.injEq] at h1
+              subst h1
+              simp only [Bool.and_eq_true, Bool.not_eq_eq_eq_not, Bool.not_true] at hends
+              exact hends.1
+            · cases hends
+          have hstep := dataStep_plain_first hf e x fi cur ln la c0 hallp.1 hsp0 hx
+          have hrun2 := run_plain hf e fi cur ln v' [c0] 1 (some c0) hallp.2
+          have hval : validAfter [c0].length 1 v' = (c0 :: v').length := by
+            -- the valid length is the whole value: its last character is not white space
+            cases hv' : v'.getLast? with
+            | none =>
+              have : v' = [] := by simpa using hv'
+              subst this; simp [validAfter]
+            | some cl =>
+              obtain ⟨w, hw⟩ : ∃ w, v' = w ++ [cl] := List.getLast?_eq_some_iff.mp hv'
+              subst hw
+              have hcl : isspace cl = false := by
+                have : (c0 :: (w ++ [cl])).getLast? = some cl := by
+                  rw [← List.cons_append]; exact List.getLast?_concat
+                rw [this] at hends
+                simp only [List.head?_cons, Bool.and_eq_true, Bool.not_eq_eq_eq_not, Bool.not_true] at hends
+                exact hends.2
+              rw [validAfter_vis _ _ _ _ hcl]
+              simp; omega
+          rw [hval] at hrun2
+          refine ⟨_, runSteps_append _ _ _ _ post (c0 :: v') hrun1 (by simp only [runSteps, hstep]; exact hrun2), ?_⟩
+          exact ⟨[c0] ++ v', true, ln, _, rfl, Or.inl ⟨rfl, by simp⟩, by simp⟩
+      · -- quoted
+        have hp' : plainOk v = false := by simpa using hp
+        simp only [hp', Bool.false_eq_true, ↓reduceIte]
+        unfold valueOk at hvo
+        simp only [hp', Bool.false_or, Bool.and_eq_true, Bool.not_eq_eq_eq_not, Bool.not_true, bne_iff_ne, ne_eq] at hvo
+        obtain ⟨⟨_, hz⟩, hlast⟩ := hvo
+        have hopen := dataStep_quote_open hf e x fi cur ln la hx
+        obtain ⟨ln', la', hesc, hl1, _⟩ := run_escape hf e fi cur v [] (some 34) ln hz
+        have hq0 : qstate e fi cur ln [] (some 34) = Dst e [34] false fi 0 cur ln 34 (some 34) := by
+          simp [qstate]
+        have hq1 : qstate e fi cur ln' ([] ++ v) la' = Dst e v true fi v.length cur ln' 34 la' := by
+          have : v.isEmpty = false := by simpa using hne
+          simp [qstate, this]
+        rw [hq0, hq1] at hesc
+        have hla : la' ≠ some 92 := by rw [hl1 hne]; exact hlast
+        have hclose := dataStep_in_close hf e v fi v.length cur ln' la' hla hne
+        refine ⟨Dst e v true fi v.length cur ln' 0 (some 34), ?_, ?_⟩
+        · refine runSteps_append _ _ _ _ post (34 :: escape v ++ [34]) hrun1 ?_
+          simp only [List.cons_append, runSteps, hopen]
+          exact runSteps_append _ _ _ _ (escape v) [34] hesc (by simp only [runSteps, hclose])
+        · exact ⟨v, true, ln', some 34, rfl, Or.inl ⟨rfl, Nat.le_refl _⟩, by simp⟩
+
+/-- **`mpt_parse_data` reads a written value**: blanks, value text, trailing decoration, line feed -/
+theorem parseData_value (cfg : Cfg) (hcfg : cfg.fmt = f) (e : List (List UInt8)) (fi : UInt8) (cur ln : Nat)
+    (post tr rest : List UInt8) (ov : Option (List UInt8)) (src : Src)
+    (hpost : post.all isBlank = true) (htr : trailOk tr = true)
+    (hv : match ov with | some x => x.isEmpty = true ∨ valueOk x = true | none => True)
+    (hsrc : src.rest = post ++ valueText ov ++ tr ++ 10 :: rest) :
+    ∃ s' src', parseData cfg (Stt e [] false fi 0 cur ln) src = (((valueOf ov).length : Int), s', src')
+      ∧ DataExit.good e fi cur (valueOf ov) s' ∧ src'.rest = rest := by
+  subst hcfg
+  obtain ⟨d, hrun, hd⟩ := run_value hf e fi cur ln post ov hpost hv
+  obtain ⟨bs, hbs, htr'⟩ := trail_split tr htr
+  obtain ⟨d', hrun', hd', hlast⟩ := afterVal_blanks hf e fi cur (valueOf ov) bs d hd hbs
+  have hrunAll := runSteps_append (dataStep cfg.fmt) _ _ _ (post ++ valueText ov) bs hrun hrun'
+  have hoe : (cfg.fmt.oend != 0) = false := by rw [hf.oend]; rfl
+  rcases htr' with htr' | ⟨txt, htr', hne, htxt⟩
+  · -- blanks, then the line feed
+    subst htr'
+    obtain ⟨s', hstep, hgood⟩ := afterVal_newline hf e fi cur (valueOf ov) d' hd'
+    obtain ⟨src', hscan, hrest⟩ := scan_prefix_done (dataStep cfg.fmt) (fun d => DataExit.eof d.st)
+      (post ++ valueText ov ++ tr) 10 rest src { st := Stt e [] false fi 0 cur ln } d' _ hsrc hrunAll hstep
+    refine ⟨s', src', ?_, hgood, hrest⟩
+    unfold parseData
+    simp only [hscan]
+    obtain ⟨l, k, ln', hs', _⟩ := hgood
+    subst hs'
+    simp [dataFinish, hoe]
+  · -- blanks, comment up to the line feed
+    subst htr'
+    obtain ⟨b, hb1, hb2⟩ := hlast hne
+    obtain ⟨s', hstep, hgood⟩ := afterVal_comment hf e fi cur (valueOf ov) d' hd' b hb2 hb1
+    have hsrc' : src.rest = (post ++ valueText ov ++ bs) ++ 35 :: (txt ++ 10 :: rest) := by
+      rw [hsrc]; simp [List.append_assoc]
+    obtain ⟨src1, hscan, hrest1⟩ := scan_prefix_done (dataStep cfg.fmt) (fun d => DataExit.eof d.st)
+      (post ++ valueText ov ++ bs) 35 (txt ++ 10 :: rest) src { st := Stt e [] false fi 0 cur ln } d' _ hsrc'
+      hrunAll hstep
+    obtain ⟨line', src2, hend, hrest2⟩ := endline_line txt rest s' src1 htxt hrest1
+    obtain ⟨l, k, ln', hs', htake⟩ := hgood
+    subst hs'
+    refine ⟨_, src2, ?_, ⟨l, k, line', rfl, htake⟩, hrest2⟩
+    unfold parseData
+    simp only [hscan, hend]
+    simp [dataFinish, hoe]
+
+end assemble
 
 end Mpt.Parse
